@@ -2644,7 +2644,7 @@ func (r *repoT) GobDecode(b []byte) error {
 
 func (r *repoT) GobEncode() ([]byte, error) {
 	r.RLock()
-	r.RUnlock()
+	defer r.RUnlock()
 
 	var buf bytes.Buffer
 	enc := gob.NewEncoder(&buf)
@@ -2759,16 +2759,18 @@ func (r *repoT) saveToStore(db storage.OrderedKeyValueDB) error {
 	if db == nil {
 		return fmt.Errorf("cannot save repo to nil store")
 	}
-	r.RLock()
 	dvid.VerifYield("datastore.saveToStore")
 	compression, err := dvid.NewCompression(dvid.LZ4, dvid.DefaultCompression)
 	if err != nil {
 		return err
 	}
+	// repoT.GobEncode holds the repo's read lock while it encodes; holding it here as well would take
+	// it twice, which deadlocks as soon as a writer queues up in between.
 	serialization, err := dvid.Serialize(r, compression, dvid.CRC32)
 	if err != nil {
 		return err
 	}
+	r.RLock()
 	tk := r.id.Bytes()
 	r.RUnlock()
 
